@@ -995,3 +995,37 @@ def check_undefined_inline(ctx, fb, rule, scope=None):
                    'uses it through %s: the use is ill-formed (no diagnostic required) and does not link — this part '
                    'of the API cannot be used at all' % (cn, qn), 'caller: ' + f.full[:300])
     return ncalls
+
+
+# ------------------------------------------------------------------------------------------------ R-HANDLEASSIGN
+
+def check_handle_assign(ctx, fb, rule):
+    """Future / Promise / SharedPromise / Task hold their state in an IntrusivePtr and declare no move assignment of
+    their own, while their destructors run a release protocol (Detach, Set(StopTag), Cancel).  The defaulted move
+    assignment is therefore correct only if IntrusivePtr's same-type move assignment hands the OVERWRITTEN pointee to
+    the moved-from object (a swap), whose destructor then runs that protocol.  Rule: on every path of
+    IntrusivePtr<T>::operator=(IntrusivePtr<T>&&) the previous pointee is not released (no DecRef, no IntrusivePtr
+    temporary destroyed); plus: the handle classes still have a protocol destructor and no hand-written move
+    assignment (otherwise the argument changes and this rule must be re-read)."""
+    n = 0
+    for f in sorted(fb.fn.values(), key=lambda f: f.full):
+        if f.qn != 'yaclib::IntrusivePtr::operator=' or f.cfg is None or f.fta or len(f.params) != 1:
+            continue
+        pt = f.locals[f.params[0]]['t']
+        if 'IntrusivePtr<' not in pt or not pt.rstrip().endswith('&&'):
+            continue
+        n += 1
+        key = 'R-HANDLEASSIGN IntrusivePtr::operator=(IntrusivePtr&&)'
+        res = CoreWalker(fb).run(f)
+        ctx.instance(rule, key + ' :: ' + f.cls[:100], dict(function=f.full[:160], paths=len(res)))
+        for st, _ in res:
+            rel = [e for e in st.events if (e[0] == 'call' and e[1].endswith('::DecRef')) or
+                   (e[0] == 'dtor' and 'IntrusivePtr' in e[1])]
+            if rel:
+                ctx.report(rule, key, f.where, 'the same-type move assignment releases the overwritten pointee itself '
+                           '(a bare DecRef) instead of handing it to the moved-from pointer: Future / Promise / Task / '
+                           'SharedPromise rely on their moved-from handle\'s destructor (Detach / Set(StopTag) / Cancel) '
+                           'to release an overwritten live state — assigning over a pending future now deletes a state '
+                           'its promise still writes to', 'instantiation: ' + f.full[:300])
+                break
+    return n
